@@ -2,27 +2,120 @@
 //! `stderrlog` is re-bound (to a recording logger), and a public wrapper is added because
 //! `main` is private.
 
+/// Stand-in for the `stderrlog` crate with the same builder surface (so that plausible edits of
+/// `main.rs` keep compiling), backed by the simulated world's recording logger.
 #[allow(dead_code)]
 mod stderrlog {
-    pub struct StdErrLog {
-        level: log::LevelFilter,
+    use log::LevelFilter;
+
+    #[derive(Clone, Copy, Debug, PartialEq, Eq)]
+    pub enum ColorChoice {
+        Always,
+        AlwaysAnsi,
+        Auto,
+        Never,
     }
+
+    #[derive(Clone, Copy, Debug, PartialEq, Eq)]
+    pub enum Timestamp {
+        Off,
+        Second,
+        Millisecond,
+        Microsecond,
+        Nanosecond,
+    }
+
+    pub struct LogLevelNum(LevelFilter);
+    impl From<usize> for LogLevelNum {
+        fn from(v: usize) -> Self {
+            LogLevelNum(match v {
+                0 => LevelFilter::Error,
+                1 => LevelFilter::Warn,
+                2 => LevelFilter::Info,
+                3 => LevelFilter::Debug,
+                _ => LevelFilter::Trace,
+            })
+        }
+    }
+    impl From<log::Level> for LogLevelNum {
+        fn from(v: log::Level) -> Self {
+            LogLevelNum(v.to_level_filter())
+        }
+    }
+    impl From<LevelFilter> for LogLevelNum {
+        fn from(v: LevelFilter) -> Self {
+            LogLevelNum(v)
+        }
+    }
+
+    #[derive(Clone, Debug)]
+    pub struct StdErrLog {
+        level: LevelFilter,
+        quiet: bool,
+    }
+
     pub fn new() -> StdErrLog {
         StdErrLog {
-            level: log::LevelFilter::Error,
+            level: LevelFilter::Error,
+            quiet: false,
         }
     }
+
     impl StdErrLog {
-        pub fn verbosity(&mut self, level: log::LevelFilter) -> &mut Self {
-            self.level = level;
+        pub fn new() -> StdErrLog {
+            new()
+        }
+        pub fn verbosity<V: Into<LogLevelNum>>(&mut self, verbosity: V) -> &mut Self {
+            self.level = verbosity.into().0;
             self
         }
-        pub fn init(&mut self) -> Result<(), log::SetLoggerError> {
-            // Pinned at WARN at most: the only wall-clock value in the product (`Instant::now`
-            // in file_formatter.rs) flows into a `debug!` message, which is then never built.
-            log::set_max_level(self.level.min(log::LevelFilter::Warn));
-            log::set_logger(&crate::child::SimLogger)
+        pub fn quiet(&mut self, quiet: bool) -> &mut Self {
+            self.quiet = quiet;
+            self
         }
+        pub fn show_level(&mut self, _v: bool) -> &mut Self {
+            self
+        }
+        pub fn show_module_names(&mut self, _v: bool) -> &mut Self {
+            self
+        }
+        pub fn timestamp(&mut self, _t: Timestamp) -> &mut Self {
+            self
+        }
+        pub fn color(&mut self, _c: ColorChoice) -> &mut Self {
+            self
+        }
+        pub fn module<T: Into<String>>(&mut self, _m: T) -> &mut Self {
+            self
+        }
+        pub fn modules<T: Into<String>, I: IntoIterator<Item = T>>(&mut self, _m: I) -> &mut Self {
+            self
+        }
+        /// Pinned at WARN at most: the only wall-clock value in the product (`Instant::now` in
+        /// file_formatter.rs) flows into a `debug!` message, which is then never built.
+        fn effective(&self) -> LevelFilter {
+            if self.quiet {
+                LevelFilter::Off
+            } else {
+                self.level.min(LevelFilter::Warn)
+            }
+        }
+        pub fn init(&mut self) -> Result<(), log::SetLoggerError> {
+            log::set_max_level(self.effective());
+            log::set_boxed_logger(Box::new(self.clone()))
+        }
+    }
+
+    impl log::Log for StdErrLog {
+        fn enabled(&self, metadata: &log::Metadata) -> bool {
+            metadata.level() <= self.effective()
+        }
+        fn log(&self, record: &log::Record) {
+            if self.enabled(record.metadata()) {
+                crate::child::record_log(record.level().as_str(), format!("{}", record.args()));
+            }
+        }
+        fn flush(&self) {}
     }
 }
 
